@@ -26,3 +26,13 @@ for t in facts.EXPECTED_TARGETS:
 with open(os.path.join(HERE, "rules", "known_params.json"), "w") as fh:
     json.dump(params, fh, indent=0, sort_keys=True)
 print(len(keys), "functions;", len(params), "functions with captured parameters")
+
+fields = {}
+for t in facts.EXPECTED_TARGETS:
+    adts = json.load(open(os.path.join(d, t + ".json")))["adts"]
+    for k, a in adts.items():
+        if a.get("local") and k not in fields:
+            fields[k] = {v["name"]: [[f["name"], f["ty"]] for f in v["fields"]] for v in a["variants"]}
+with open(os.path.join(HERE, "rules", "known_fields.json"), "w") as fh:
+    json.dump(fields, fh, indent=0, sort_keys=True)
+print(len(fields), "local types")
